@@ -53,3 +53,108 @@ class tt_validate(Contract):
 
     def ensures(self, S, a, ret):
         yield "returns-nothing", ret is None
+
+
+# ======================================================================= ttensor.permute (C07)
+
+def _is_perm(S, order, Nn):
+    L = order.shape[0]
+    q1, q2 = z3.Int("tp!q1"), z3.Int("tp!q2")
+    return S.And(S.eq(L, Nn), S.forall(0, L, lambda q: S.And(0 <= order.fn(q), order.fn(q) < Nn)),
+                 T.ForAll([q1, q2], z3.Implies(z3.And(0 <= q1, q1 < q2, T.tz(q2 < L)), T.tz(order.fn(q1)) != T.tz(order.fn(q2)))))
+
+
+def _abs_core_permute(it, pos, kw, self_val):
+    """core.permute(order) of the (dense or sparse) core: a new tensor whose mode m is mode order[m] of the core -- proved for
+    sparse cores under sptensor.permute's own contract, bounded for dense cores (c07.index_maps)"""
+    order = N.snap(pos[0] if pos else kw["order"])
+    old = self_val.fields["shape"]
+    new = Rec(self_val.cls, dict(shape=Arr((old.shape[0],), lambda m: old.fn(order.fn(m)), "int", kind="tuple")))
+    new.ghost = dict(permuted_from=self_val, order=order)
+    it.ctx.log_ghost("core:permute", new)
+    return new
+
+
+def _abs_ttensor_init(it, pos, kw, self_val):
+    """ttensor(core, factors): the new object holds the core and (copies of) the factors in the given order; the consistency
+    check of the constructor (proved under ttensor._validate_ttensor: one factor per core mode, factor k with core.shape[k]
+    columns) becomes an obligation at this call site"""
+    core, factors = pos[0], pos[1]
+    ctx = it.ctx
+    if isinstance(factors, (list, tuple)):
+        items = list(factors)
+
+        def item(mm, items=items):
+            if isinstance(mm, int):
+                return items[mm]
+            if len(items) == 1:
+                return items[0]
+            raise PathAbort("ttensor() call site: concrete factor list indexed symbolically", ctx.cur_line)
+        factors = SymList(len(items), item, kind="list")
+    if not isinstance(factors, SymList):
+        raise PathAbort("ttensor() call site: factors is not a list of matrices", ctx.cur_line)
+    cshape = core.fields["shape"]
+    ctx.oblige(T.eq(factors.length, cshape.shape[0]), "ttensor():one-factor-per-core-mode", kind="requires")
+    m = T.fresh_int("tm")
+    ctx.oblige(T.ForAll([m], z3.Implies(z3.And(0 <= m, T.lt(m, cshape.shape[0])), T.tz(T.eq(factors.item(m).shape[1], cshape.fn(m))))),
+               "ttensor():factor-k-has-core.shape[k]-columns", kind="requires")
+    self_val.fields.update(core=core, factor_matrices=SymList(factors.length, factors.item, "list"))
+    return None
+
+
+@register
+class tt_permute(Contract):
+    qual = TT_ + "permute"
+    props = ("C07", "C19")
+    doc = ("T.permute(order) for a Tucker tensor of any order: order must be a permutation of the modes (else raises); the "
+           "result is a new Tucker tensor whose core is the core permuted by the same order and whose factor m is factor "
+           "order[m] of T (entry-wise) -- so mode m of the result is mode order[m] of T in core and factors alike, and the "
+           "constructor's consistency check is met (an obligation here).  The permutation of the core itself is sptensor.permute "
+           "(proved under its own contract) or tensor.permute (bounded).")
+    inline = ("pyttb.ttensor.ttensor.ndims", "pyttb.pyttb_utils.parse_one_d")
+
+    def abstract_calls(self, S, a):
+        return {"pyttb.sptensor.sptensor.permute": _abs_core_permute, "pyttb.tensor.tensor.permute": _abs_core_permute,
+                TT_ + "__init__": _abs_ttensor_init}
+
+    def setup(self, S, case):
+        Nn = S.int("N", 1)
+        cshape = S.vector("cshape", Nn, "int", kind="tuple")
+        S.assume(S.forall(0, Nn, lambda q: cshape.fn(q) >= 1, pats=lambda q: [cshape.fn(q)]))
+        rows = z3.Function(T.fresh_name("tt_rows"), I_, I_)
+        fm = z3.Function(T.fresh_name("tt_fm"), I_, I_, I_, z3.RealSort())
+        m = z3.Int("tp!m")
+        S.assume(T.ForAll([m], rows(m) >= 1, [rows(m)]))
+        fms = SymList(Nn, lambda mm: Arr((rows(T.tz(mm)), T.tz(cshape.fn(mm))), lambda i, j, mm=mm: fm(T.tz(mm), T.tz(i), T.tz(j)), "real"), kind="list")
+        me = Rec("ttensor", dict(core=Rec("sptensor", dict(shape=cshape)), factor_matrices=fms))
+        me.ghost = dict(N=Nn, cshape=cshape, rows=rows, fm=fm)
+        order = S.vector("order", S.nat("L"), "int")
+        return dict(__self__=me, order=order)
+
+    def raises_when(self, S, a):
+        yield "not-a-permutation", S.Not(_is_perm(S, a["order"], a["__self__"].ghost["N"]))
+
+    def ensures(self, S, a, ret):
+        me, order = a["__self__"], a["order"]
+        g = me.ghost
+        ok = isinstance(ret, Rec) and ret.cls == "ttensor" and ret is not me and isinstance(ret.fields.get("factor_matrices"), SymList)
+        yield "returns-a-new-ttensor", ok
+        if not ok:
+            return
+        core, fms = ret.fields["core"], ret.fields["factor_matrices"]
+        cg = getattr(core, "ghost", None) or {}
+        yield "core-is-the-core-permuted-by-order", cg.get("permuted_from") is me.fields["core"] and cg.get("order") is not None
+        q, i, r = z3.Int("tp!eq"), z3.Int("tp!ei"), z3.Int("tp!er")
+        if cg.get("order") is not None:
+            yield "core-permuted-by-the-given-order", T.ForAll([q], z3.Implies(z3.And(0 <= q, q < g["N"]), T.tz(cg["order"].fn(q)) == T.tz(order.fn(q))))
+        gh = S.body_ghosts.get("argsort")
+        if gh:
+            p_, pinv_ = gh[-1]
+            yield "lemma:order(q)==rank(q)", T.ForAll([q], z3.Implies(z3.And(0 <= q, q < g["N"]), z3.And(T.tz(order.fn(q)) == pinv_(q), 0 <= pinv_(q), pinv_(q) < g["N"])), [order.fn(q)]), "lemma"
+        yield "one-factor-per-mode", S.eq(fms.length, g["N"])
+        item = fms.item(q)
+        oq = T.tz(order.fn(q))
+        yield "factor-m-is-factor-order[m]", T.ForAll(
+            [q, i, r], z3.Implies(z3.And(0 <= q, q < g["N"], 0 <= i, i < g["rows"](oq), 0 <= r, r < T.tz(g["cshape"].fn(oq))),
+                                  z3.And(T.tz(T.eq(item.shape[0], g["rows"](oq))), T.tz(T.eq(item.shape[1], g["cshape"].fn(oq))),
+                                         T.tz(T.as_real(item.fn(i, r))) == g["fm"](oq, i, r))))
